@@ -78,6 +78,11 @@ func MinDepositRef(k keeper.Keeper, ctx sdk.Context, price sdk.Int) sdk.Int {
 
 // Binding installs a binding of service svc with symbolic deposit, pricing, QoS and availability
 // (nT/nV promotions), satisfying the binding invariants (MIN, D).
+// noMinAssumed: the builders normally assume that an available binding holds the minimum deposit for its
+// price (MIN); scenes about slashing drop the assumption, because a parameter change (minimum deposit or
+// multiple raised by governance) leaves available bindings below the new minimum until their next slash.
+var noMinAssumed bool
+
 func Binding(k keeper.Keeper, ctx sdk.Context, tag, svc string, provider, owner sdk.AccAddress, nT, nV int, allowZero bool) BindingSpec {
 	b := BindingSpec{Provider: provider, Owner: owner, Present: true}
 	b.Deposit = vf.Amount(tag + ".deposit")
@@ -94,7 +99,11 @@ func Binding(k keeper.Keeper, ctx sdk.Context, tag, svc string, provider, owner 
 	b.Available = vf.Bool(tag + ".available")
 	b.DisabledTime = vf.Time(tag + ".disabledTime")
 	// available bindings hold the minimum deposit (MIN) and carry no disabling time
-	vf.Assume(vf.Implies(b.Available, vf.And(b.DisabledTime.IsZero(), b.Deposit.GTE(MinDepositRef(k, ctx, p.Price.AmountOf(Denom))))))
+	if noMinAssumed {
+		vf.Assume(vf.Implies(b.Available, b.DisabledTime.IsZero()))
+	} else {
+		vf.Assume(vf.Implies(b.Available, vf.And(b.DisabledTime.IsZero(), b.Deposit.GTE(MinDepositRef(k, ctx, p.Price.AmountOf(Denom))))))
+	}
 	dep := coins(b.Deposit)
 	if allowZero {
 		dep = coinsOrEmpty(b.Deposit)
